@@ -916,6 +916,7 @@ private:
         const std::vector<sbe::enum_valid_value>& valid_values,
         const std::string_view primitive_type) const
     {
+        std::unordered_set<std::string> unique_values;
         for(const auto& value : valid_values)
         {
             validate_name(value);
@@ -933,6 +934,20 @@ private:
                     value.location,
                     value.value,
                     primitive_type);
+            }
+
+            // generated code switches over the values, they have to be unique.
+            // Numbers are compared by value: `010` and `10` are the same
+            auto canonical_value =
+                is_char ? value.value : utils::strip_leading_zeros(value.value);
+            if(canonical_value == "-0")
+            {
+                canonical_value = "0";
+            }
+            if(!unique_values.insert(std::move(canonical_value)).second)
+            {
+                throw_error(
+                    "{}: value `{}` is not unique", value.location, value.value);
             }
         }
     }
